@@ -100,6 +100,9 @@ sx_enum! {
         BulkDestroy { a: u8, stride: u32, phase: u32 },
         Spawn { c: u64 },
         CloneFrom { n: u8 },
+        // clone_from at world level (a = None) or on one archetype (a = Some), optionally with a
+        // Clone panic (panic_at) or a Drop panic of the overwritten content (dp)
+        CloneFromX { n: u8, a: Option<u8>, panic_at: Option<u32>, dp: Option<u32> },
     }
 }
 
@@ -140,6 +143,7 @@ impl Op {
             Op::BulkDestroy { .. } => "BulkDestroy",
             Op::Spawn { .. } => "Spawn",
             Op::CloneFrom { .. } => "CloneFrom",
+            Op::CloneFromX { .. } => "CloneFromX",
         }
     }
     pub fn tag(&self) -> u64 {
@@ -167,6 +171,7 @@ impl Op {
             Op::BulkDestroy { .. } => 21,
             Op::Spawn { .. } => 22,
             Op::CloneFrom { .. } => 23,
+            Op::CloneFromX { .. } => 24,
         }
     }
 }
